@@ -297,6 +297,9 @@ pub fn write_generic_diff_header_header_line(
     if config.file_style.is_omitted && !config.color_only {
         return Ok(());
     }
+    // The header is written directly to the writer: first flush lines of the previous file
+    // which have been painted but not yet emitted.
+    painter.emit()?;
     let (mut draw_fn, pad, decoration_ansi_term_style) =
         draw::get_draw_function(config.file_style.decoration_style);
     if !config.color_only {
